@@ -132,6 +132,8 @@ def units(tier, seed):
             if tier == "quick" and n >= 4 and size != 2:
                 continue            # quick: pool sizes 1 and 3 for the <= 3-node families only
             for shared in (False, True):
+                if tier == "quick" and n >= 4 and not shared and f != ["join", "one"]:
+                    continue        # quick: 4-node families with the shared broker (the racier configuration)
                 us.append({"part": "pool", "family": f, "t": "plain", "size": size, "shared": shared})
     for f in ((["one", "one"], ["chain2", "one"]) if tier == "quick" else (["one", "one"], ["chain2", "one"], ["one", "one", "one"])):
         for ctx in ("host", "archive", None):
@@ -152,6 +154,8 @@ def _pool_devs(unit, tier):
     nodes, comps = compose(unit["family"], unit["t"], unit.get("ctx"))
     n = len(nodes)
     alts = ["skip", "error", "seed"] if unit["t"] == "plain" else ["error", "cpe"]
+    if tier == "quick" and unit["t"] == "plain":
+        alts = ["error", "seed"]
     maxdev = 1 if tier == "quick" else (1 if n >= 4 else 2)
     if unit["size"] != 2 or (unit["t"] == "datasource" and tier == "quick"):
         maxdev = 0
